@@ -267,7 +267,9 @@ func c15Model(argv []string, d mDir) (nd mDir, exitNonZero bool, stdout []*mEntr
 			exitNonZero = true
 			continue
 		}
-		out.mode = e.mode & 0o666 &^ 0o022
+		// upper bound for the output's permission bits: the statement only forbids bits the input
+		// lacked (whether the umask is applied on top is the implementation's business)
+		out.mode = e.mode & 0o777
 		nd[target] = out
 		if !o.keep {
 			delete(nd, name)
